@@ -43,6 +43,7 @@ Inductive ty :=
 | TBool
 | TInt (lo hi : Z)
 | TAny
+| TConst (c : json)                    (* the tag member of #[serde(tag = ..)] on a struct: always written as [c], not looked at when read *)
 | TObjAny
 | TOpt (t : ty)
 | TVec (t : ty)
@@ -83,6 +84,7 @@ Section Serde.
     | TMap _ _ => Some (VMap [])
     | TObjAny => Some (VAny (JObj []))
     | TAny => Some (VAny JNull)
+    | TConst c => Some (VAny c)
     | TId _ | TEnum _ => None
     | TStruct fs =>
         (fix go (fs : list (fmeta * ty)) : option val :=
@@ -115,6 +117,7 @@ Section Serde.
                     | _ => None
                     end
     | TAny => Some (VAny j)
+    | TConst c => Some (VAny c)
     | TObjAny => match j with JObj _ => Some (VAny j) | _ => None end
     | TOpt t' => match j with JNull => Some VNone | _ => option_map VSome (deser t' j) end
     | TVec t' =>
@@ -219,7 +222,7 @@ Section Serde.
     | TStr, VStr s | TId _, VStr s | TEnum _, VStr s => Some (JStr s)
     | TBool, VBool b => Some (JBool b)
     | TInt _ _, VInt z => Some (JInt z)
-    | TAny, VAny j | TObjAny, VAny j => Some j
+    | TAny, VAny j | TObjAny, VAny j | TConst _, VAny j => Some j
     | TOpt _, VNone => Some JNull
     | TOpt t', VSome v' => ser t' v'
     | TVec t', VVec l =>
